@@ -99,6 +99,16 @@ def run(db, chk):
                                                "m_basins": basins, "m_receivers": rec})
                 w = BasinWorld(order, masked, base)
                 it = Interp(w)
+                # members the model does not name start from their in-class initialiser (a freshly
+                # constructed graph): e.g. flags guarding a cached result
+                grec = [r for r in cb.unit.records if r["bn"] == model.GRAPH_IMPL]
+                for fld in (grec[0]["fields"] if grec else []):
+                    if fld["n"] not in this.fields and fld.get("init") is not None:
+                        from ..interp import Frame
+                        try:
+                            this.fields[fld["n"]] = it.rv(it.eval(fld["init"], Frame(cb, this)))
+                        except AnalysisBroken:
+                            pass
                 bad = []
                 try:
                     it.call_fn(cb, this, [])
@@ -181,4 +191,9 @@ def run(db, chk):
                        extra={"unit": uname})
     chk.absorb(db, "C06", {"C06-F1"}, "C19-L3", "the bottom-up order the labels are propagated along is rebuilt "
                "whenever receivers change (shared with C06-F1)", min_instances=9)
+    chk.absorb(db, "C09", {"C09-P2"}, "C19-L4", "the base levels `pits()` tests against are exactly those last set "
+               "(shared with C09-P2)", pred=lambda o: "set_base_levels" in o["instance"], min_instances=3)
+    chk.absorb(db, "C16", {"C16-T1"}, "C19-L5", "every member compute_basins reads is carried into graph snapshots "
+               "(shared with C16-T1): labels of a snapshot follow the snapshot's own receivers",
+               pred=lambda o: "compute_basins" in o["instance"], min_instances=3)
     chk.count_scenarios(n_sc, True)
